@@ -15,7 +15,9 @@ TOKENS = ['STARBUCKS', 'STORE', 'Cafe', "JOE'S", 'A.B', 'C*D', 'X+Y', '(NEW)', '
           '#1234', 'WA', '98101', 'SQ', '*MARKET', 'TST*', 'APLPAY', 'Spaßbad', 'É', 'İstanbul', 'ﬁsh', '12', 'A,B', 'x=y', 'tab\tsep',
           '#12A', '#7-X', 'CRISP', 'SHOPP*MART', 'GOOGLE', '#9',
           # a long number directly followed by text (a store id with a suffix, an amount inside the description)
-          '5744A21', '0042.50', '12345X']
+          '5744A21', '0042.50', '12345X',
+          # characters a bank export can carry that cannot stand in a rules file as they are (a NUL byte, other control characters)
+          'A\x00B', 'BEL\x07L', 'C1\x9fX']
 PREFIXES = ['', 'SQ *', 'TST* ', 'APLPAY ', 'PP*', 'GOOGLE *', 'SP ']
 
 
